@@ -63,6 +63,13 @@ func DecodeRuneInString(s string) (rune, int)
 func Valid(p []byte) bool
 func RuneLen(r rune) int
 `,
+	"bytes": `package bytes
+func Equal(a, b []byte) bool
+func Compare(a, b []byte) int
+`,
+	"context": `package context
+type Context interface{ Err() error }
+`,
 	"sync": `package sync
 type Mutex struct{ state int }
 func (m *Mutex) Lock()
